@@ -350,7 +350,7 @@ pub fn run(ctx: &Ctx) -> PropResult {
     }));
     let out = run_workloads(ctx, wls);
     let mut meta = PropMeta::default();
-    meta.rule = "values as in C11 (BC, 1–7 digit years, hours 0/11/12/13/23, noon/midnight ±1 s, year edges, offsets with minutes/seconds of both signs) x patterns from the unambiguous-field grammar (model/pattern_gen.rs: ≤ 1 field per component in random order; a non-digit literal or the end after every variable-width numeric field; fixed-width fields adjacent; yyyyy+ only when the year fits; zone symbol wide enough for the offset; derived fields G q w e only next to a full date; literals incl. multi-byte characters, quoted text and ''; over-long runs) + ten canonical patterns. Per case: parse(format(v,p),p) must be Ok, re-format to the same string; with a full date, time of day and zone the instant and offset must be v's (without a zone: the shown fields as UTC); absent fields must read 0001-01-01 / 00:00:00 / UTC. Skipped: a month/day or day-of-year without a year when that date does not exist in year 1. Every case non-trivial; distinct by hash of (value, pattern).".into();
+    meta.rule = "values as in C11 (BC, 1–7 digit years, hours 0/11/12/13/23, noon/midnight ±1 s, year edges, offsets with minutes/seconds of both signs) x patterns from the unambiguous-field grammar (model/pattern_gen.rs: ≤ 1 field per component in random order; a non-digit literal or the end after every variable-width numeric field; fixed-width fields adjacent; yyyyy+ only when the year fits; zone symbol wide enough for the offset; derived fields G q w e only next to a full date; literals incl. multi-byte characters, quoted text and ''; over-long runs) + ten canonical patterns. Per case: parse(format(v,p),p) must be Ok, re-format to the same string; with a full date, time of day and zone the instant and offset must be v's (without a zone: the shown fields as UTC); absent fields must read 0001-01-01 / 00:00:00 / UTC. Skipped: a month/day or day-of-year without a year when that date does not exist in year 1. Every case non-trivial; distinct by hash of (value, pattern). Delimiters include two literal tokens of different kinds side by side (plain then quoted and vice versa), quoted text starting/ending in white space and quoted text that continues an English name ('day', 'tember', 'M').".into();
     meta.required_bins = vec![
         "sym/y1", "sym/y2", "sym/y4", "sym/y6", "sym/M1", "sym/M3", "sym/M4", "sym/d1", "sym/D1", "sym/D2", "sym/D3", "sym/h1", "sym/K2", "sym/k1", "sym/H1", "sym/a4", "sym/b5", "sym/b3",
         "sym/m1", "sym/s1", "sym/n1", "sym/n4", "sym/n5", "sym/X1", "sym/X4", "sym/X5", "sym/x1", "sym/x5", "sym/x6", "sym/G4", "sym/q4", "sym/w1", "sym/e4",
